@@ -694,6 +694,18 @@ namespace awkward {
       }
     }
     check_for_iteration();
+    for (size_t j = 0;  j < cols;  j++) {
+      // the fields are read with getitem_at_nowrap below
+      if (contents_[j].get()->length() < rows) {
+        util::handle_error(
+          failure("len(field) < len(recordarray)",
+                  kSliceNone,
+                  kSliceNone,
+                  FILENAME_C(__LINE__)),
+          classname(),
+          identities_.get());
+      }
+    }
     if (include_beginendlist) {
       builder.beginlist();
     }
